@@ -80,7 +80,8 @@ CLAIMED = {
           "ceil(x)-1 < x <= ceil(x), integer(x) truncates toward zero, round(x) is within 1/2 of x, all four are integers; "
           "for finite |x| < 2^52: inc(x) = floor(x)+1 exactly (least integer greater than x) and dec(x) = ceil(x)-1 "
           "exactly; bool(string(b)) = b, identity on values of the target type, non-boolean / non-numeric strings are "
-          "errors. Not proved: integer(x)+decimal(x) = x, round_places' envelope, number(string(x)) = x (strconv). "
+          "errors; integer(x) + decimal(x) = x exactly for EVERY finite double (the fractional part x - trunc(x) is itself "
+          "a double, has the sign of x and magnitude below 1). Not proved: round_places' envelope, number(string(x)) = x (strconv). "
           "Those are judged on every generated input by an exact-rational oracle; the strict half-unit bound of "
           "round_places is refuted (known finding D23).",
   "design_ref": "DESIGN.md section 5, C19",
@@ -108,8 +109,9 @@ CLAIMED = {
           "errors; every seed over [0-9a-z] is accepted (base 36 with int64 wrap-around written into the model). "
           "Determinism across executions and processes is a property of the Go runtime: the model is a function of "
           "(dialogue, seed-derived stream, choices, host) and the correspondence family compares it with repeated "
-          "in-process executions and a fresh child process. random() in [0,1) is not proved (float rounding of "
-          "Int63/2^63) and is checked on every generated value by the comparison with the model.",
+          "in-process executions and a fresh child process. random() is proved finite and in [0,1] for every Int63 "
+          "stream, and below 1 unless 17 candidates in a row round to 1 (the model's redraw budget; the real code keeps "
+          "drawing).",
   "design_ref": "DESIGN.md section 5, C09",
   "note": "math/rand's source is an oracle stream; only the first 64 raw values are supplied per case.",
   "technique": "Coq proof of range theorems + differential correspondence check with repeated and child-process executions",
@@ -165,7 +167,9 @@ CLAIMED = {
   "text": "Theorems: a set/declare statement stores exactly SetSpec.set_spec(previous, op, value) with one Set* call "
           "(exec_set_spec), a failing statement changes neither the store nor the storer's call log, types are stable, "
           "compound assignment to an unknown name is an error, the in-memory storer holds a name under at most one type "
-          "after any sequence of writes and across any Next, and a host write is what the next read returns. "
+          "after any sequence of writes and across any Next, GetValue and GetValues agree on every name for every "
+          "store built by writes and across any Next (and disagree without the invariant - defect D2), and a host write "
+          "is what the next read returns. "
           "Correspondence: assignment histories with host writes on a recording Storer.",
   "design_ref": "DESIGN.md section 5, C03",
   "note": "Axioms: the four stdlib axioms behind Flocq's reals (number type). The host storer is modelled as the "
